@@ -509,8 +509,8 @@ int c12_batch(const Args &a) {
                     std::string path = write_replay("C12", "libc-static", key, a.seed, i, p1, none, std::string("function ") + g_fn[op.fn].name + "\n");
                     st.viol_replay[key] = path;
                     emit_violation(st, "libc-static", key, path, i,
-                                   std::string(g_fn[op.fn].name) + (lb >= 7 ? " changes the process-wide setting behind " : " goes through libc's ") + g_libc_static_names[lb] +
-                                       (lb >= 7 ? " (visible to every thread for as long as the change lasts, even if it is put back)"
+                                   std::string(g_fn[op.fn].name) + ((lb >= 7 && lb <= 16) ? " changes the process-wide setting behind " : " goes through libc's ") + g_libc_static_names[lb] +
+                                       ((lb >= 7 && lb <= 16) ? " (visible to every thread for as long as the change lasts, even if it is put back)"
                                                 : ", whose result / continuation state lives in static storage shared by all threads"));
                 }
                 if (r.footprint.empty()) continue;
